@@ -466,6 +466,7 @@ class BaseParser:
         unprovided_fields = set()
         provided = {}
         attempted = set()
+        excluded_fields = set()
         options = context.options
 
         # a field given under several spellings: the spelling that is declared first is the one that is parsed
@@ -526,13 +527,19 @@ class BaseParser:
                 continue
 
             attempted.add(name)
-            parsed = field.parse_value(value, context=context)
+            dropped = set()
+            parsed = field.parse_value(value, context=context, excluded=dropped)
+            if dropped:
+                # a value dropped by an 'exclude' policy counts as not given:
+                # it neither satisfies a dependency nor imposes the dependencies of its field
+                excluded_fields.add(name)
+                unprovided_fields.add(name)
             if unprovided(parsed):
                 continue
 
             result[name] = parsed
 
-            if field.dependencies:
+            if field.dependencies and not dropped:
                 dependencies.update(
                     field.attr_dependencies if as_attname else field.dependencies
                 )
@@ -557,7 +564,7 @@ class BaseParser:
         if dependencies:
             dependant = set(result)
             # a dependency that was given but failed to parse is reported as that failure, not as absent
-            dependant.update(attempted)
+            dependant.update(attempted.difference(excluded_fields))
             if excluded_keys:
                 dependant.update(excluded_keys)
 
@@ -632,6 +639,7 @@ class BaseParser:
         dependencies = set()
         unprovided_fields = set()
         attempted = set()
+        excluded_fields = set()
         options = context.options
 
         for key, field in self.fields.items():
@@ -685,12 +693,18 @@ class BaseParser:
             used_alias.update(field.all_aliases)
 
             attempted.add(name)
-            parsed = field.parse_value(value, context=context)
+            dropped = set()
+            parsed = field.parse_value(value, context=context, excluded=dropped)
+            if dropped:
+                # a value dropped by an 'exclude' policy counts as not given:
+                # it neither satisfies a dependency nor imposes the dependencies of its field
+                excluded_fields.add(name)
+                unprovided_fields.add(name)
             if unprovided(parsed):
                 continue
 
             result[name] = parsed
-            if field.dependencies:
+            if field.dependencies and not dropped:
                 dependencies.update(
                     field.attr_dependencies if as_attname else field.dependencies
                 )
@@ -698,7 +712,7 @@ class BaseParser:
         if dependencies:
             dependant = set(result)
             # a dependency that was given but failed to parse is reported as that failure, not as absent
-            dependant.update(attempted)
+            dependant.update(attempted.difference(excluded_fields))
             if excluded_keys:
                 dependant.update(excluded_keys)
 
